@@ -90,6 +90,10 @@ pub fn oracle(snap: &Snapshot, n: usize, outputs: &[bool], expected: bool, concu
 
 pub fn main(tier: Tier, seed: u64) -> i32 {
     let mut rep = Report::new("C13", tier, seed, "model_checking");
+    if let Err(e) = crate::srvx::selftest(seed) {
+        rep.machinery(e);
+        return rep.finish();
+    }
     let budget = Budget::new(if tier.is_thorough() { 1500.0 } else { 50.0 });
     // (n, leader, constants from, outputs)
     let mut plan: Vec<(usize, usize, Vec<usize>, Vec<bool>)> = vec![];
